@@ -368,6 +368,41 @@ def batch_model():
                 vio('corr', inp, f'data section differs from the model at unit {first} of {len(summ)} (model: traces {summ[first][0]} samples {summ[first][1]})')
 
 
+def two_lines():
+    """two 2-D lines of the SAME geometry open in one process, read alternately over the same trace / sample ranges: what one
+    reader holds (decompression memo, header arrays) must never answer for the other file"""
+    for bpv, bs in ((8, (1, 16, -1)), (16, (1, 4, -1))):
+        nt, ns = rng.choice([21, 33]), rng.choice([37, 9])
+        paths, vols = [], []
+        for _ in range(2):
+            sgy, src, hdrs, samples, det = make_source('2d', nt, ns, 5, 4000, 0)
+            p = os.path.join(d, f'tl{rng.randrange(10 ** 9)}.sgz')
+            write_segy_sgz(sgy, p, bpv=bpv, blockshape=bs)
+            os.remove(sgy)
+            paths.append(p)
+            vols.append(SpecFile(p).volume())
+        inp = {'kind': 'two 2d lines open together', 'n_traces': nt, 'n_samples': ns, 'bpv': bpv, 'blockshape': list(bs)}
+        R.case(f'two-lines {nt}x{ns} {bs}', sample=inp)
+        ra, rb = SgzReader(paths[0]), SgzReader(paths[1])
+        try:
+            wins = [(0, nt, 0, ns), (3, min(nt, 19), 5, min(ns, 30)), (nt - 4, nt, max(0, ns - 7), ns)]
+            for k in range(3):
+                for which, r in ((0, ra), (1, rb), (0, ra)):
+                    V = vols[which]
+                    i = [0, nt // 2, nt - 1][k]
+                    if not bits_equal(r.get_trace(i), V[i, :ns]):
+                        vio('oracle', dict(inp, call=f'line {"AB"[which]}: get_trace({i})'), 'not the decoded trace of its own file (alternating reads of two lines)')
+                        return
+                    a0, a1, z0, z1 = wins[k]
+                    if not bits_equal(r.read_subplane(a0, a1, z0, z1), V[a0:a1, z0:z1]):
+                        vio('oracle', dict(inp, call=f'line {"AB"[which]}: read_subplane{(a0, a1, z0, z1)}'), 'not the window of its own section (alternating reads of two lines)')
+                        return
+        finally:
+            ra.close(); rb.close()
+            for p in paths:
+                os.remove(p)
+
+
 def refusals():
     """rates below one bit: refused before anything is written (D13 fixed); run in a child so that a regression cannot take the harness down"""
     code = r'''
@@ -419,7 +454,7 @@ try:
             kind = rng.choice(['2d', '2d', '2d', 'one_il', 'one_xl'])
             fmt = rng.choice([5, 5, 1])
             hd = rng.choice(['heuristic', 'heuristic', 'thorough', 'exhaustive'])
-            run_case(kind, nt, ns, bpv, bs, fmt, rng.choice([4000, 2000, 1000]), rng.choice([0, 100]), hd)
+            run_case(kind, nt, ns, bpv, bs, fmt, rng.choice([4000, 2000, 1000]), rng.choice([0, 100, -100, -12]), hd)
     # every residue of n_traces mod blockshape[1] for the small group widths, every residue of n_samples mod 4 (and mod 8 blocks)
     for bs1, bpv, bs in ((4, 8, (1, 4, -1)), (8, 8, (1, 8, 512)), (16, 4, (1, 16, -1))):
         for rres in (range(bs1) if not quick else rng.sample(range(bs1), 4)):
@@ -433,6 +468,7 @@ try:
     # trace counts whose header arrays are an exact multiple of 512 bytes (footer stride boundary): 128 traces, and one either side
     for nt in ((127, 128, 129) if quick else (127, 128, 129, 255, 256, 257)):
         run_case('2d', nt, rng.choice([5, 9]), 8, (1, 16, -1), 5, 4000, 0, rng.choice(['heuristic', 'thorough']))
+    two_lines()
     refusals()
     batch_model()
 finally:
